@@ -19,7 +19,9 @@ EXPLANATION = ("Pattern formatter tables and wiring. R1 (exhaustive over the Att
                "trailing newline is stripped; the splitter writes one statement per line. R4g: the attribute scan never skips a character "
                "it has not looked at. R6: MacroMetadata offsets (file name, line, short location). R7: two option sets are equal — and a "
                "formatter is shared between loggers — only if every data member is equal. R8 (= C16.R3): each sink receives the line "
-               "of its own override pattern if it has one, else the logger's, chosen afresh per sink.")
+               "of its own override pattern if it has one, else the logger's, chosen afresh per sink."
+               " R1f/R1g: the rewriter's starting state and the one-index-per-name registration. R2i/R2j: the text of %(named_args); tags read only when present. R6w: compile-time witness for the two source-location offsets. R9e: the text is shortened to the message part before anything rewrites it. R10: the process id is set on every start path. R11/R12 (= C18.R3, C10.R2): replayed backtrace records; per-event clean-up.")
+TECHNIQUE = "static analysis: custom checker over clang AST/CFG facts (table and path rules) plus a compile-time witness (static_assert table over 'path:line' literals evaluated by the compiler) for MacroMetadata's constexpr offsets"
 NOT_DECIDED = ("The rewritten fmt string for arbitrary literal text and specs, line splitting for every arrangement of newlines as "
                "values, MacroMetadata offset arithmetic for file name / line, attributes used twice (excluded by the property).")
 EXHAUSTIVE = "the Attribute and LogLevel enumerators (tables re-derived from the enums on every run)"
@@ -595,7 +597,18 @@ def r5(ctx, facts):
                 el = strip(i["else"], casts=True)
                 full = is_call(el, r"::size$")
                 last = any(x["k"] == "BinaryOperator" and x["op"] == "-" and const_val(x["rhs"]) == 1 for x in walk(i["cond"]))
-                ok = tests_nl and minus1 and full and last
+                # the last character is looked at only when there is one: the other conjunct is 'size() is not zero', evaluated first
+                parts = flatten(i["cond"], "&&")
+                nonempty = False
+                if len(parts) == 2 and any(x["k"] == "CharacterLiteral" for x in walk(parts[1])) and not any(x["k"] == "CharacterLiteral" for x in walk(parts[0])):
+                    p0 = parts[0]
+                    nc0, cs0 = norm_cmp(p0), cmp_sides(p0)
+                    core0, neg0 = core_and_neg(p0)
+                    nonempty = (nc0 is not None and nc0[0] == "!=" and "0" in (nc0[1], nc0[2]) and any(is_call(x, r"::size$") for x in walk(p0))) or \
+                        (cs0 is not None and cs0[0] == "<" and const_val(cs0[1]) == 0 and any(is_call(x, r"::size$") for x in walk(cs0[2]))) or \
+                        (cs0 is not None and cs0[0] == "<=" and const_val(cs0[1]) == 1 and any(is_call(x, r"::size$") for x in walk(cs0[2]))) or \
+                        (is_call(strip(core0, casts=True), r"::empty$") and neg0)
+                ok = tests_nl and minus1 and full and last and nonempty
     ctx.ob("C12.R5b", "_dispatch_transit_event_to_sinks:one-trailing-newline", ok,
            "without the option exactly one trailing newline is dropped when the message ends with one, nothing otherwise", fn=d)
     m = facts.need(BW + "_process_multi_line_message", "A")[0]
